@@ -75,6 +75,13 @@ structure MonRel (m : Mon) (s : St) : Prop where
   calls : MonCalls m s
   reqs : MonReqs m s
 
+/-- The labels that act on one incoming request (handled one by one in `MonReqsA/B.lean`); every
+other label is handled by `monreqs_other` (`MonReqsC.lean`). -/
+def Label.reqLabel : Label → Bool
+  | .read _ | .a1 _ | .a2 _ | .d1 | .hasync _ | .hret _ _ | .p1 _ | .p2 _
+  | .w1 (.resp _) | .wret (.resp _) _ | .w2 (.resp _) => true
+  | _ => false
+
 theorem prevOK_init : PrevOK ({} : Mon).prev ({} : St) := Or.inr ⟨rfl, rfl⟩
 
 theorem monCalls_init : MonCalls {} {} :=
